@@ -83,6 +83,26 @@ pub fn computed_weight(mode: WeightMode, value: u64, with_ttl: bool) -> i64 {
     }
 }
 
+/// Builds a real cache for `cfg` under a fresh harness clock; installs nothing (usable in sanitizer / Miri runs).
+pub fn build_cache(cfg: &SutCfg) -> (Arc<Cache>, VClock) {
+    let clock = VClock::at(cfg.start_ns);
+    let mut builder = ConfigBuilder::new(cfg.counters, cfg.capacity, cfg.max_weight)
+        .shards(cfg.shards)
+        .command_buffer_size(cfg.cmd_buf)
+        .access_pool_size(cfg.pool)
+        .access_buffer_size(cfg.buf)
+        .ttl_tick_duration(cfg.tick)
+        .clock(Box::new(clock.clone()));
+    if cfg.weight_mode == WeightMode::Custom {
+        builder = builder.weight_calculation_fn(Box::new(|_key: &u64, value: &u64, with_ttl| computed_weight(WeightMode::Custom, *value, with_ttl)));
+    }
+    if cfg.hash_mode == HashMode::Constant {
+        builder = builder.key_hash_fn(Box::new(|_key: &u64| 42));
+    }
+    let cache = Arc::new(CacheD::new(builder.build()));
+    (cache, clock)
+}
+
 pub struct Sut {
     pub cache: Arc<Cache>,
     pub clock: VClock,
@@ -107,21 +127,7 @@ impl Sut {
         let sent_base = recorder().sent.load(Ordering::SeqCst);
         let completed_base = recorder().completed.load(Ordering::SeqCst);
         let failed_base = recorder().send_failed.load(Ordering::SeqCst);
-        let clock = VClock::at(cfg.start_ns);
-        let mut builder = ConfigBuilder::new(cfg.counters, cfg.capacity, cfg.max_weight)
-            .shards(cfg.shards)
-            .command_buffer_size(cfg.cmd_buf)
-            .access_pool_size(cfg.pool)
-            .access_buffer_size(cfg.buf)
-            .ttl_tick_duration(cfg.tick)
-            .clock(Box::new(clock.clone()));
-        if cfg.weight_mode == WeightMode::Custom {
-            builder = builder.weight_calculation_fn(Box::new(|_key: &u64, value: &u64, with_ttl| computed_weight(WeightMode::Custom, *value, with_ttl)));
-        }
-        if cfg.hash_mode == HashMode::Constant {
-            builder = builder.key_hash_fn(Box::new(|_key: &u64| 42));
-        }
-        let cache = Arc::new(CacheD::new(builder.build()));
+        let (cache, clock) = build_cache(&cfg);
         let sweeps = recorder().sweeps();
         Sut { cache, clock, cfg, marks, sweeps_at_last_clock_change: std::sync::atomic::AtomicU64::new(sweeps), applied_base, sweeps_base, sent_base, completed_base, failed_base }
     }
